@@ -49,8 +49,9 @@ End Store.
 
 Definition k2 := (Z * Z)%type.            (* (delegator, validator) | (address, denom) | (proposal, address) *)
 Definition k3 := (Z * (Z * Z))%type.      (* (delegator, (src validator, dst validator)) *)
-Definition k2_eqb (a b : k2) : bool := (fst a =? fst b) && (snd a =? snd b).
-Definition k3_eqb (a b : k3) : bool := (fst a =? fst b) && k2_eqb (snd a) (snd b).
+Definition pkeqb {R} (reqb : R -> R -> bool) (a b : Z * R) : bool := (fst a =? fst b) && reqb (snd a) (snd b).
+Definition k2_eqb : k2 -> k2 -> bool := pkeqb Z.eqb.
+Definition k3_eqb : k3 -> k3 -> bool := pkeqb k2_eqb.
 
 (* ---------- records ---------- *)
 Record del_rec := { d_del : addr; d_val : addr; d_shares : Z }.
